@@ -623,5 +623,42 @@ pub open spec fn wf_passmod_resp(t: StructureTag) -> bool {
     ensures r.gen_pass@ == utf8_decode(parse_spec(val@)->0.payload->C_0@[0].payload->P_0@), //# C19.password_modify_response_generated_password
 //@end
 
+
+// ======================================================================= the table of recognised response controls
+// lazy_static CONTROLS in src/controls_impl.rs: parse_controls tags a response control with Some(type) when its OID is in
+// this table (V-controls: C03.known_controls_are_tagged_from_the_table).  The initialiser block is lifted (locator L7) over
+// a ghost-viewed stand-in for the map; the OID constants are the lifted ones above.
+pub enum ControlType { PagedResults, PostReadResp, PreReadResp, SyncDone, SyncState, ManageDsaIt, MatchedValues }
+pub struct HashMap { pub m: Ghost<Map<Seq<char>, ControlType>> }
+impl HashMap {
+    pub closed spec fn view(&self) -> Map<Seq<char>, ControlType> { self.m@ }
+    #[verifier::external_body]
+    pub fn new() -> (r: HashMap) ensures r@ == Map::<Seq<char>, ControlType>::empty() { unimplemented!() }
+    #[verifier::external_body]
+    pub fn insert(&mut self, k: &'static str, v: ControlType) ensures final(self)@ == old(self)@.insert(k@, v) { unimplemented!() }
+}
+pub mod self_ { }
+//@const file=src/controls_impl/content_sync.rs name=SYNC_STATE_OID
+//@const file=src/controls_impl/content_sync.rs name=SYNC_DONE_OID
+pub open spec fn known_table() -> Map<Seq<char>, ControlType> {
+    Map::<Seq<char>, ControlType>::empty()
+        .insert("1.2.840.113556.1.4.319"@, ControlType::PagedResults)      // RFC 2696
+        .insert("1.3.6.1.1.13.2"@, ControlType::PostReadResp)              // RFC 4527
+        .insert("1.3.6.1.1.13.1"@, ControlType::PreReadResp)               // RFC 4527
+        .insert("1.3.6.1.4.1.4203.1.9.1.3"@, ControlType::SyncDone)        // RFC 4533
+        .insert("1.3.6.1.4.1.4203.1.9.1.2"@, ControlType::SyncState)       // RFC 4533
+        .insert("2.16.840.1.113730.3.4.2"@, ControlType::ManageDsaIt)      // RFC 3296
+        .insert("1.2.826.0.1.3344810.2.3"@, ControlType::MatchedValues)    // RFC 3876
+}
+//@lift name=CONTROLS file=src/controls_impl.rs block="static ref CONTROLS: HashMap<&'static str, ControlType> =" as="fn controls_table() -> (map_r: HashMap)"
+//@ sub "self::paged_results::" => ""
+//@ sub "self::read_entry::" => "" count=2
+//@ sub "self::content_sync::" => "" count=2
+//@ sub "self::manage_dsa_it::" => ""
+//@ sub "self::matched_values::" => ""
+//@ spec
+    ensures map_r@ =~= known_table(), //# C03+C19.recognised_response_controls_are_tagged_with_their_own_type
+//@end
+
 } // verus!
 fn main() {}
